@@ -19,7 +19,7 @@ SPEC = {
     "build_comp": "remotes_admit",
     "props": ["props/C36.v"],
     "corr": ["corr/RemotesAdmit_corr.v"],
-    "comps": [{"comp": "remotes_admit", "n_quick": 180, "n_thorough": 3000}],
+    "comps": [{"comp": "remotes_admit", "n_quick": 140, "n_thorough": 2000}],
     "trusted": ["model/RemotesAdmit.v + model/RemoteList.v are hand-written mirrors of the admission paths (tied by correspondence through a real LightHouse, Punchy, readOutsidePackets, handleHostRoaming)",
                 "the shim counts Punchy.Schedule calls through the scheduler's sync.Pool New hook and waits for that many datagrams on a recording udp.Conn",
                 "StartHandshake's static-host guard before addCalculatedRemotes is replicated in the shim (two lines of handshake_manager.go)",
